@@ -1163,7 +1163,29 @@ func propOperandOrderEffects(c *Ctx) {
 	}
 }
 
+// A double-quoted identifier is a variable whatever it spells: a variable named like a keyword, a boolean or null literal,
+// in any letter case, takes part in the expression with its value.
+func propKeywordNamedVariables(c *Ctx) {
+	n := 0
+	for _, name := range []string{"true", "TRUE", "True", "false", "FALSE", "null", "NULL", "and", "OR", "not", "xor", "is", "in", "like", "Max", "e", "pi"} {
+		for _, m := range []string{"u", "s"} {
+			for _, tc := range []struct{ tpl, want string }{{"%s + 1", "ok i42"}, {"1 + %s * 2", "ok i83"}, {"(%s) - 1", "ok i40"}, {"%s = 41", "ok b1"}, {"-%s", "ok i-41"}, {"%s IS NULL", "ok b0"}} {
+				expr := fmt.Sprintf(tc.tpl, "\""+name+"\"")
+				op := fmt.Sprintf("kwvar %s %s", m, strRunes(expr))
+				got, _, _ := evalWith(expr, m, []binding{{name, vInt(41)}})
+				c.record(op, true)
+				n++
+				if got != tc.want {
+					c.fail(Failure{Kind: "oracle", Op: op, Impl: got, Note: fmt.Sprintf("with the variable %s = 41 the value of %s is %s", name, expr, tc.want)})
+				}
+			}
+		}
+	}
+	c.Notes = append(c.Notes, fmt.Sprintf("quoted identifiers spelled like keywords / literals / function names as variables: %d evaluations against the written value", n))
+}
+
 func propC01(c *Ctx) {
+	propKeywordNamedVariables(c)
 	g := newExGen(c)
 	g.funcs = []string{"Max", "min", "SUM", "If", "Array", "abs", "Choose", "nosuch", "Contains", "Trunc"}
 	// names that are different variables for the collection (upper-case comparison) although their lower-case forms coincide
@@ -1328,6 +1350,10 @@ func replayEval(c *Ctx, op string) {
 	}
 	if strings.HasPrefix(op, "ordereff ") {
 		propOperandOrderEffects(c)
+		return
+	}
+	if strings.HasPrefix(op, "kwvar ") {
+		propKeywordNamedVariables(c)
 		return
 	}
 	if f := strings.Fields(op); len(f) == 2 && f[0] == "lit" {
